@@ -19,6 +19,9 @@ package main
 //   dirty_additive     C15/GenAdditiveShare/depends-on-receiver-content  (incl. refused calls: output untouched)
 //   genpoly_copy       C15/GenShamirPolynomial/aliases-secret
 //   reconstruct_reused C15/protocol/reused-buffers   (whole setup + reconstruction with one buffer per role)
+// Tie lines: `share` (from a re-used buffer; the model sees the inputs only) and `share_into` (the dirty
+// receiver's previous content is put on the line; the model's genShamirSecretShareInto, proved
+// receiver-independent in Props/C15.lean, must reproduce the words).
 
 import (
 	"fmt"
@@ -215,9 +218,15 @@ func c15HistShare(c *Ctx, st *c15Setup, ctxs string) {
 		thr.GenShamirSecretShare(st.pts[c.rng.Intn(st.n)], gen, &buf)
 		order := c.c15Shuffle(c15Iota(st.n))
 		detail := ""
-		for _, j := range order {
+		for oi, j := range order {
 			c15Dirty(c, s.ms, buf.Poly, kind)
+			recvBefore := c15M(buf.Poly)
 			res := Try(func() string { thr.GenShamirSecretShare(st.pts[j], gen, &buf); return "ok" })
+			if oi == 0 && res == "ok" && !probesOnly() {
+				// tie: the model is given the receiver's previous content explicitly
+				c.Emit("share_into "+s.ring()+" "+U(uint64(st.pts[j]))+" "+I(st.t)+" "+recvBefore+" "+c15PolyToks(gen), c15M(buf.Poly))
+				c.Count("tie:share_into:" + c15DirtyName[kind])
+			}
 			if res != "ok" {
 				detail = "GenShamirSecretShare " + res + " for recipient " + I(j)
 				break
